@@ -20,6 +20,7 @@ import sys
 from concurrent.futures import ThreadPoolExecutor
 
 from harness.common import coq
+from harness.props import simslave
 from harness.translate import slavesync
 
 ID = 'C12'
@@ -92,18 +93,38 @@ GAIN_DEF = {'type': 'number', 'modifiable': True, 'min': 0, 'max': 100, 'integer
 
 
 def gen_port(rng, pid):
+    """a slave port; which optional attributes it carries varies (a read-only port has no expression, a slave without history
+    support no history_*, ...)"""
     typ = rng.choice(['number', 'number', 'boolean'])
+    writable = rng.random() < 0.7
     p = {'id': pid, 'display_name': rng.choice(['', 'Port ' + pid, 'x']), 'type': typ}
-    if typ == 'number':
+    if typ == 'number' and rng.random() < 0.8:
         p['unit'] = rng.choice(['', 'C', 'u'])
-    p.update({'writable': rng.random() < 0.75, 'enabled': rng.random() < 0.85})
+    p.update({'writable': writable, 'enabled': rng.random() < 0.85})
     if typ == 'number':
-        p.update({'min': 0, 'max': 100, 'integer': True})
-    p.update({'tag': rng.choice(['', 'stag']), 'expression': rng.choice(['', '', 'ADD(1, 2)']),
-              'persisted': rng.random() < 0.3, 'internal': False, 'virtual': False, 'online': True})
+        r = rng.random()
+        if r < 0.6:
+            p.update({'min': 0, 'max': 100, 'integer': True})
+        elif r < 0.75:
+            p.update({'integer': True, 'choices': [{'value': v, 'display_name': 'Choice %d' % v} for v in (0, 25, 50, 100)]})
+        elif r < 0.85:
+            p.update({'min': 0, 'max': 100, 'integer': True, 'step': 1})
+    if rng.random() < 0.8:
+        p['tag'] = rng.choice(['', 'stag'])
+    if writable:                                    # only writable ports have an expression
+        p['expression'] = rng.choice(['', '', 'ADD(1, 2)'])
+        if rng.random() < 0.3:
+            p['transform_write'] = rng.choice(['', 'MUL($, 2)'])
     if rng.random() < 0.3:
-        p['history_interval'] = rng.choice([0, 60])
-        p['history_retention'] = 3600
+        p['transform_read'] = rng.choice(['', 'ADD($, 1)'])
+    p.update({'persisted': rng.random() < 0.3, 'internal': False})
+    if rng.random() < 0.7:
+        p['virtual'] = rng.random() < 0.2
+    if rng.random() < 0.7:
+        p['online'] = True
+    if rng.random() < 0.45:                         # the slave has history support
+        p['history_interval'] = rng.choice([0, 60, -1])
+        p['history_retention'] = rng.choice([0, 3600])
     p['value'] = rand_value(rng, typ)
     p['pending_value'] = None
     if rng.random() < 0.6:
@@ -120,8 +141,12 @@ def rand_value(rng, typ):
 
 def rand_attr_change(rng, p):
     """a slave-side attribute change of port json p -> (name, value)"""
-    names = ['display_name', 'enabled', 'expression', 'persisted']
-    if p['type'] == 'number':
+    names = ['display_name', 'enabled', 'persisted']
+    if 'expression' in p:
+        names.append('expression')
+    if 'history_interval' in p:
+        names += ['history_interval', 'history_retention']
+    if 'unit' in p:
         names.append('unit')
     if 'gain' in p:
         names += ['gain', 'gain']
@@ -129,6 +154,7 @@ def rand_attr_change(rng, p):
     v = {'display_name': lambda: rng.choice(['', 'a', 'b', 'Port', 'long name %d' % rng.randint(0, 9)]),
          'enabled': lambda: rng.random() < 0.6, 'expression': lambda: rng.choice(['', 'ADD(1, 2)', 'MUL(2, 3)']),
          'persisted': lambda: rng.random() < 0.5, 'unit': lambda: rng.choice(['', 'C', 'u', 'V']),
+         'history_interval': lambda: rng.choice([0, 60, 300, -1]), 'history_retention': lambda: rng.choice([0, 3600, 86400]),
          'gain': lambda: rng.randint(0, 100)}[n]()
     return n, v
 
@@ -196,7 +222,7 @@ def gen_e2e(rng, mode=None):
         r = rng.random()
         dt = rng.choice([0, 0, 1, 20, 60, 300, 1500]) if burst else rng.choice([0, 50, 400, 2000, 6000])
         if mode != 'push' and not down and r < 0.08:
-            ops.append([dt, 'down'])
+            ops.append([dt, 'down', rng.choice(simslave.FAULTS)])
             down = True
             ops.append([rng.choice([2000, 8000, 30000, 45000, 70000, 130000]), 'wait'])
         elif down and r < 0.25:
@@ -761,7 +787,10 @@ def run_e2e_batch(ctx, res, jobs, label, tags):
 def check(ctx, res):
     res['rule'] = (
         'e2e: random scripts (4-30 timed ops: device value changes, attribute changes, port add/remove, device attribute '
-        'changes, full-update, network down/up with outages of 2-130 s, sync points) over 1-4 ports, listen / poll (1-3 s) / '
+        'changes, full-update, network down/up with outages of 2-130 s showing as one of %d fault kinds (connection refused, '
+        'host/network unreachable, timeout, three gaierror codes, reset, ssl, stream closed, HTTP 500/503 with JSON body, truncated '
+        'JSON, HTML 502), sync points; slave ports with varying optional attributes (expression only on writable ports, '
+        'history_*, unit, min/max/step, choices, transform_*)' % len(simslave.FAULTS) + ' over 1-4 ports, listen / poll (1-3 s) / '
         'push mode, 1-6 cyclic latencies of 1-800 ms; micro: 3-30 steps (device mutations, delivery of 1..k queued events, '
         'main.update ticks, fetch_and_update_ports, _poll_once). non-trivial = e2e script with at least one refused request, '
         'a sync and two device events, or micro script with a device mutation and two kinds of master steps')
